@@ -48,7 +48,7 @@ func VerifC02ResultStream() {
 		verifAssume(!na && !nb && len(ta) > 0 && len(tb) > 0)
 	}
 	lb := verifChoice("line-break", 3) // LF, CRLF, CR
-	encloseAll := format == 0 && verifBool("enclose-all")
+	encloseAll := (format == 0 || format == 1) && verifBool("enclose-all")
 	withoutHeader := (format == 0 || format == 1) && verifBool("without-header")
 	// the stream in UTF-8, or (CSV, TSV, LTSV, fixed-length) in UTF-16 little endian
 	utf16 := format != 3 && format != 4 && verifBool("utf16")
@@ -97,7 +97,13 @@ func VerifC02ResultStream() {
 	v := tx2.SelectedViews[0]
 	verifAssert("same number of records", v.RecordLen() == 2)
 	verifAssert("same number of fields", v.FieldLen() == 2)
+	// with --enclose-all (NULL is the bare empty field, the empty text is "") and in JSON (null, "") the
+	// format has a spelling of its own for each: they must not coincide
+	twoSpellings := encloseAll || format == 3 || format == 4
 	same := func(p value.Primary, text string, isNull bool) bool {
+		if twoSpellings && value.IsNull(p) != isNull {
+			return false
+		}
 		if value.IsNull(p) {
 			return isNull || text == ""
 		}
